@@ -1,6 +1,7 @@
 package gear
 
 import (
+	"errors"
 	"net/http"
 
 	sentinel "github.com/alibaba/sentinel-golang/api"
@@ -36,7 +37,14 @@ func SentinelMiddleware(opts ...Option) gear.Middleware {
 			return err
 		}
 
-		defer entry.Exit()
+		// gear runs middleware and handler one after the other: the entry stays open until the
+		// response has been written; a 5xx answer (handler error or panic) is traced as an error.
+		ctx.OnEnd(func() {
+			if status := ctx.Res.Status(); status >= http.StatusInternalServerError {
+				sentinel.TraceError(entry, errors.New(http.StatusText(status)))
+			}
+			entry.Exit()
+		})
 		return err
 	}
 }
